@@ -87,6 +87,12 @@ def const_table(tree: ast.Module) -> Dict[str, ast.expr]:
             return lit(e.operand)
         if isinstance(e, ast.Call) and isinstance(e.func, ast.Name) and e.func.id == "frozenset" and len(e.args) == 1 and not e.keywords:
             return lit(e.args[0])
+        if isinstance(e, ast.Dict):
+            # a dispatch table: constant keys, values that are constants, names or tuples of those
+            def val(v: ast.AST) -> bool:
+                return lit(v) or isinstance(v, ast.Name) or (isinstance(v, ast.Tuple) and all(val(x) for x in v.elts))
+
+            return all(k is not None and isinstance(k, ast.Constant) for k in e.keys) and all(val(v) for v in e.values)
         return False
 
     def walk(body: list, prefix: str) -> None:
@@ -361,6 +367,11 @@ class _Expr(ast.NodeTransformer):
             left, right = right, left
         if isinstance(op, (ast.In, ast.NotIn)) and isinstance(right, (ast.List, ast.Set)) and all(isinstance(x, ast.Constant) for x in right.elts):
             right = ast.Tuple(elts=right.elts, ctx=ast.Load())
+        if isinstance(op, (ast.In, ast.NotIn)) and isinstance(right, ast.Tuple) and 1 <= len(right.elts) <= 6 and all(isinstance(x, ast.Constant) and isinstance(x.value, (str, int)) and not isinstance(x.value, bool) for x in right.elts) and is_simple(left):
+            # membership in a literal tuple of strings / integers is a chain of equality tests
+            parts = [self._single(ast.Compare(left=copy.deepcopy(left), ops=[ast.Eq()], comparators=[x])) for x in right.elts]
+            e = parts[0] if len(parts) == 1 else ast.BoolOp(op=ast.Or(), values=parts)
+            return e if isinstance(op, ast.In) else negate(e)
         return ast.Compare(left=left, ops=[op], comparators=[right])
 
     def visit_BinOp(self, n: ast.BinOp):
@@ -559,6 +570,14 @@ class Normaliser:
             changed |= c
             out, c = self._identity_loop(out)
             changed |= c
+            out, c = self._store_to_load(out)
+            changed |= c
+            out, c = self._table_dispatch(out)
+            changed |= c
+            out, c = self._table_dispatch2(out)
+            changed |= c
+            out, c = self._merge_equal_arms(out)
+            changed |= c
             out, c = self._close_to_with(out)
             changed |= c
         return out
@@ -739,6 +758,120 @@ class Normaliser:
                 if isinstance(last, ast.Assign) and len(last.targets) == 1 and isinstance(last.targets[0], ast.Name) and last.targets[0].id == nx.value.id:
                     st.body = st.body[:-1] + [ast.Return(value=last.value)]
                     return out[: i + 1] + out[i + 2 :], True
+        return out, False
+
+    def _store_to_load(self, out: list) -> Tuple[list, bool]:
+        """T = v; S[T]   ->   T = v; S[v]     (T an attribute / constant-or-name subscript of a plain path, v a local name,
+        the load the first thing S evaluates)"""
+        for i in range(len(out) - 1):
+            st, nx = out[i], out[i + 1]
+            if not (isinstance(st, ast.Assign) and len(st.targets) == 1 and isinstance(st.value, ast.Name)):
+                continue
+            tgt = st.targets[0]
+            if isinstance(tgt, ast.Subscript):
+                if not (is_simple(tgt.value) and is_simple(tgt.slice)):
+                    continue
+            elif isinstance(tgt, ast.Attribute):
+                if not is_simple(tgt.value):
+                    continue
+            else:
+                continue
+            want = dump(tgt).replace("Store()", "Load()")
+            ev: list = []
+            for h in _header_exprs(nx):
+                _eval_order(h, ev)
+            if any(k in ("effect", "opaque", "branch") for k, _ in ev[:0]):
+                continue
+            hit = None
+            for h in _header_exprs(nx):
+                for n in ast.walk(h):
+                    if isinstance(n, (ast.Subscript, ast.Attribute)) and isinstance(n.ctx, ast.Load) and dump(n) == want:
+                        hit = n
+                        break
+                if hit is not None:
+                    break
+            if hit is None:
+                continue
+            # nothing with an effect may be evaluated in S before the load
+            inner = {id(x) for x in ast.walk(hit)}
+            early = True
+            for kind, n in ev:
+                if id(n) in inner:
+                    break
+                if kind in ("effect", "opaque", "branch"):
+                    early = False
+                    break
+            if not early:
+                continue
+            _replace_node(nx, hit, ast.Name(id=st.value.id, ctx=ast.Load()))
+            return out, True
+        return out, False
+
+    def _table_dispatch(self, out: list) -> Tuple[list, bool]:
+        """t = {k1: v1, ...}.get(K); if t is None: A else: B    ->    if K == k1: t = v1; B  elif ... else: t = None; A
+        (a literal table with distinct constant keys and no None value; K a plain name)"""
+        for i in range(len(out) - 1):
+            st, nx = out[i], out[i + 1]
+            if not (isinstance(st, ast.Assign) and len(st.targets) == 1 and isinstance(st.targets[0], ast.Name) and isinstance(st.value, ast.Call)):
+                continue
+            c = st.value
+            if not (isinstance(c.func, ast.Attribute) and c.func.attr == "get" and isinstance(c.func.value, ast.Dict) and len(c.args) == 1 and not c.keywords and is_simple(c.args[0])):
+                continue
+            d = c.func.value
+            if not d.keys or len(d.keys) > 12 or any(k is None or not isinstance(k, ast.Constant) or not isinstance(k.value, (str, int)) for k in d.keys):
+                continue
+            if any(isinstance(v, ast.Constant) and v.value is None for v in d.values) or len({repr(k.value) for k in d.keys}) != len(d.keys):
+                continue
+            t = st.targets[0].id
+            if not (isinstance(nx, ast.If) and isinstance(nx.test, ast.Compare) and len(nx.test.ops) == 1 and isinstance(nx.test.ops[0], (ast.Is, ast.IsNot)) and isinstance(nx.test.left, ast.Name) and nx.test.left.id == t and isinstance(nx.test.comparators[0], ast.Constant) and nx.test.comparators[0].value is None):
+                continue
+            none_arm, some_arm = (nx.body, nx.orelse) if isinstance(nx.test.ops[0], ast.Is) else (nx.orelse, nx.body)
+            key = c.args[0]
+            chain: list = [ast.Assign(targets=[ast.Name(id=t, ctx=ast.Store())], value=ast.Constant(value=None))] + copy.deepcopy(none_arm)
+            for k, v in reversed(list(zip(d.keys, d.values))):
+                arm = [ast.Assign(targets=[ast.Name(id=t, ctx=ast.Store())], value=copy.deepcopy(v))] + copy.deepcopy(some_arm)
+                chain = [ast.If(test=ast.Compare(left=copy.deepcopy(key), ops=[ast.Eq()], comparators=[k]), body=arm, orelse=chain)]
+            return out[:i] + self.block(chain) + out[i + 2 :], True
+        return out, False
+
+    def _table_dispatch2(self, out: list) -> Tuple[list, bool]:
+        """if K in {k1: v1, ...}: B[{...}[K]] else: A    ->    if K == k1: B[v1] elif ... else: A"""
+        for i, st in enumerate(out):
+            if not (isinstance(st, ast.If) and isinstance(st.test, ast.Compare) and len(st.test.ops) == 1 and isinstance(st.test.ops[0], ast.In)):
+                continue
+            key, d = st.test.left, st.test.comparators[0]
+            if not (isinstance(d, ast.Dict) and is_simple(key) and d.keys and len(d.keys) <= 12):
+                continue
+            if any(k is None or not isinstance(k, ast.Constant) or not isinstance(k.value, (str, int)) for k in d.keys) or len({repr(k.value) for k in d.keys}) != len(d.keys):
+                continue
+            want = dump(ast.Subscript(value=d, slice=key, ctx=ast.Load()))
+            chain: list = copy.deepcopy(st.orelse)
+            for k, v in reversed(list(zip(d.keys, d.values))):
+                arm = copy.deepcopy(st.body)
+
+                class T(ast.NodeTransformer):
+                    def visit_Subscript(s_, n: ast.Subscript):
+                        if isinstance(n.ctx, ast.Load) and dump(n) == want:
+                            return copy.deepcopy(v)
+                        return s_.generic_visit(n)
+
+                arm = [T().visit(x) for x in arm]
+                chain = [ast.If(test=ast.Compare(left=copy.deepcopy(key), ops=[ast.Eq()], comparators=[k]), body=arm, orelse=chain)]
+            return out[:i] + self.block(chain) + out[i + 1 :], True
+        return out, False
+
+    def _merge_equal_arms(self, out: list) -> Tuple[list, bool]:
+        """if A: S else: (if B: S else: R)   ->   if A or B: S else: R      (B has no effect)"""
+        for i, st in enumerate(out):
+            if isinstance(st, ast.If) and len(st.orelse) == 1 and isinstance(st.orelse[0], ast.If) and st.body:
+                inner = st.orelse[0]
+                if call_free(inner.test) and dump(st.body) == dump(inner.body):
+                    new = ast.If(test=ast.BoolOp(op=ast.Or(), values=[st.test, inner.test]), body=st.body, orelse=inner.orelse)
+                    return out[:i] + self._if_shape(new) + out[i + 1 :], True
+                if call_free(inner.test) and inner.orelse and dump(st.body) == dump(inner.orelse):
+                    # if A: S else: (if B: R else: S)   ->   if A or not B: S else: R
+                    new = ast.If(test=ast.BoolOp(op=ast.Or(), values=[st.test, negate(inner.test)]), body=st.body, orelse=inner.body)
+                    return out[:i] + self._if_shape(new) + out[i + 1 :], True
         return out, False
 
     def _identity_loop(self, out: list) -> Tuple[list, bool]:
@@ -928,6 +1061,10 @@ class Normaliser:
             pre, v = self._uncomp(st.value, into=st.targets[0].id)
             if pre:
                 return self.block(pre)
+        if len(st.targets) == 1 and not isinstance(st.targets[0], (ast.Name, ast.Tuple, ast.List)) and isinstance(st.value, (ast.ListComp, ast.DictComp)):
+            pre, v = self._uncomp(st.value)
+            if pre:
+                return self.block(pre + [ast.Assign(targets=st.targets, value=v)])
         # q, r = divmod(a, b)  ->  q = a // b; r = a % b   (simple operands)
         if (
             len(st.targets) == 1
@@ -1250,6 +1387,11 @@ def forward_substitute(fn: ast.AST) -> bool:
                 t = st.targets[0].id
                 loads, stores = count_name(fn.body, t)  # type: ignore[attr-defined]
                 is_param = any(a.arg == t for a in fn.args.posonlyargs + fn.args.args + fn.args.kwonlyargs)  # type: ignore[attr-defined]
+                if loads == 0 and not is_param and call_free(st.value) and not any(isinstance(n, (ast.Subscript, ast.Attribute)) for n in ast.walk(st.value)):
+                    # a value that is never read and whose computation cannot fail or have an effect
+                    del block[i]
+                    changed = True
+                    continue
                 if stores == 1 and not is_param and loads >= 1 and i + 1 < len(block):
                     nx = block[i + 1]
                     if loads == 1 and _in_header(nx, t) == 1 and _first_use_is_early(nx, t):
